@@ -29,7 +29,7 @@ IDS = ('Water', 'Ethanol', 'Octanol', 'Methanol', 'O2', 'Glucose')
 
 
 def required(tier):
-    return ['mix_and_split', 'moisture', 'partition', 'partition:stale-outlets', 'partition:forced', 'phase_fraction', 'phase_split', 'chemical_splits', 'material_balance', 'material_balance:lstsq', 'moisture:strict=False:short', 'vle-wrapper', 'lle-wrapper',
+    return ['mix_and_split', 'moisture', 'partition', 'partition:stale-outlets', 'partition:forced', 'phase_fraction', 'phase_split', 'chemical_splits', 'material_balance', 'material_balance:lstsq', 'moisture:strict=False:short', 'partition:rr-reference', 'partition:rr-reference/one-sided-K', 'vle-wrapper', 'lle-wrapper',
             'moisture:ID', 'moisture:multistream', 'moisture:multistream:moisture-in-other-phase', 'forced:bare-string', 'partition:equal-K', 'partition:unit-K', 'partition_coefficients', 'vle:Q', 'vle:x-or-y', 'vle:one-outlet-empty',
             'vle:multi_stream', 'vle_partition_coefficients', 'lle:multi_stream', 'lle:single-liquid', 'lle_partition_coefficients', 'phase_split:stream', 'mix_and_split:multistream-inlet', 'mix_and_split:top-among-inlets']
 
@@ -88,6 +88,14 @@ def gen_case(rng):
         elif u < 0.10: c['K'] = [1.0] * k                                        # ... and equal to one (no separation)
         elif u < 0.16 and k > 1: c['K'][1] = c['K'][0]                           # a repeated value
         elif u < 0.20: c['K'][rng.randrange(k)] = 1.0
+        elif u < 0.30: c['K'] = [round(10 ** rng.uniform(0.05, 3), 5) for _ in ids]       # every listed chemical prefers the top ...
+        elif u < 0.40: c['K'] = [round(10 ** rng.uniform(-3, -0.05), 5) for _ in ids]     # ... or the bottom: with a chemical forced into the other outlet both outlets are still non-empty
+        if 0.20 <= u < 0.40 and rest:
+            c['top'] = []; c['bottom'] = []
+            side = 'bottom' if (u < 0.30) == (rng.random() < 0.8) else 'top'
+            c[side] = rng.sample(rest, rng.randrange(1, len(rest) + 1))
+            for i in c[side]:
+                if not c['feed'][i]: c['feed'][i] = round(10 ** rng.uniform(-1, 2), 4)
         c['topstr'] = len(c['top']) == 1 and rng.random() < 0.5                  # a single forced chemical given as a bare string (as in the docstring's bottom_chemicals=('NaCl'))
         c['botstr'] = len(c['bottom']) == 1 and rng.random() < 0.5
     elif t == 'phase_split':
@@ -129,6 +137,21 @@ def gen_case(rng):
         elif u < 0.25: c['feed'][0] = 0.0
         c['ms'] = rng.random() < 0.3
     return c
+
+
+def rr_root(z, K, za, zb):
+    """independent Rachford-Rice reference with material forced to the top (za) / bottom (zb): the top fraction phi in (0, 1) at which the listed chemicals
+    satisfy y_i = K_i x_i with mole fractions taken over each whole outlet; None when no interior root exists (one outlet holds no listed chemical)."""
+    z = np.asarray(z, float); K = np.asarray(K, float)
+    def g(phi):
+        return float((z * (K - 1) / (1 + phi * (K - 1))).sum()) + (za / phi if za > 0 else 0.0) - (zb / (1 - phi) if zb > 0 else 0.0)
+    lo, hi = 1e-12, 1 - 1e-12
+    if not (g(lo) > 0 > g(hi)): return None
+    for _ in range(200):
+        mid = 0.5 * (lo + hi)
+        if g(mid) > 0: lo = mid
+        else: hi = mid
+    return 0.5 * (lo + hi)
 
 
 def balance(rec, clause, tag, ins, outs, what):
@@ -260,6 +283,16 @@ def run_case(case, rec):
                 except InfeasibleRegion:
                     rec.refuse('InfeasibleRegion (strict)'); return
                 ptag = tag + ('/forced' if (topc or botc) else '')
+                # independent Rachford-Rice reference: where an interior root exists both outlets hold listed chemicals and phi must be that root
+                Ftot = fb[case['ids'] + case['top'] + case['bottom']].sum()
+                zr = fb[case['ids']] / Ftot; zar = fb[case['top']].sum() / Ftot; zbr = fb[case['bottom']].sum() / Ftot
+                if (zr > 0).sum() >= 1 and not case['strict']:
+                    ref = rr_root(zr[zr > 0], K[zr > 0], zar, zbr)
+                    if ref is not None and 1e-6 < ref < 1 - 1e-6:
+                        rec.hit('partition:rr-reference')
+                        if all(k_ >= 1 for k_ in case['K']) or all(k_ <= 1 for k_ in case['K']): rec.hit('partition:rr-reference/one-sided-K')
+                        rec.check(abs(phi - ref) <= 1e-6, 'partition', f'phase-fraction/{ptag}' + ('/one-sided-K' if (all(k_ >= 1 for k_ in case['K']) or all(k_ <= 1 for k_ in case['K'])) else ''),
+                                  f'partition returned phi = {phi!r} but the Rachford-Rice equation with K = {case["K"]}, z = {zr.tolist()}, forced top / bottom fractions {zar} / {zbr} has its root at {ref!r} (both outlets non-empty there)', residual=abs(phi - ref))
                 balance(rec, 'partition', ptag, [fb], [arr(top), arr(bot)], 'partition')
                 rec.check(np.array_equal(arr(feed), fb), 'partition', 'feed-changed', 'partition changed the feed')
                 if stale: rec.hit('partition:stale-outlets')
